@@ -36,10 +36,33 @@ any 32-bit index) is null or `Spec.strAt (secFileBytes img i) k` — what the co
 (`strings_reports_spec`); `prefix_symbols_sound`: for a symbol table with the class's entry size every
 get_symbol(k) is refused with the out-parameters untouched, or has the complete file's return value and attributes
 and the complete file's name or the empty name (linked string table not in the prefix).
-Partial (what is NOT a theorem, covered by correspondence + oracle only): the read-outs of the other accessor
-classes on a prefix (relocations, dynamic, notes, arrays, versym: `prefix_secResident` gives the section they
-would read — data absent or the complete file's bytes — the per-accessor "no data => refused/empty" step is not
-written out for them; the dynamic accessor fabricates one DT_NULL entry on a data-less section).
+The other accessor classes (Props/ComposeTables2.lean §5, Lemmas/LoadedTables2.lean): state `PrefixLoadedC img k` =
+`PrefixLoaded` + "every section carries the image's class" (`LoadedTables.load_secs_cls`: holds for the object `load`
+leaves on ANY input; `prefixLoadedC_of_load`); `prefix_secResident_c` / `pready_inv`: the section handed out has NO
+data, or has the specification's header fields, C07's invariant and content = the bytes the COMPLETE file assigns to
+it.  For every entry index (all of the index type), through the code as it is after the C18 fixes (`TQ.runQuery` /
+`Inspect.inspect`):
+  prefix_reloc_sound    [SHT_REL/SHT_RELA, sizeof(Rel/Rela) <= sh_entsize] get_entry(k) = false, or the record
+                        `specReloc img i k` the complete file's load reports (reloc_reports_spec)
+  prefix_array_sound    [sh_size % w = 0] get_entry(k) = false, or Spec.tableEntry of the complete file's bytes
+  prefix_versym_sound   [even size < 2^33, file order = host order (F4)] the same for half-words
+  prefix_notes_sound    [complete file's bytes = Spec.encodeNotes ns, size <= 2^32-3] get_notes_num() = 0 and every
+                        get_note refused, or get_notes_num() = |ns| and get_note(k) = the k-th note for every k
+  prefix_dynamic_sound  [sh_entsize = sizeof(Dyn)] exactly one of: count 0 and every get_entry refused (zeroed header,
+                        or no data and less than one record) | count 1, get_entry(0) = true with tag = DT_NULL,
+                        value = 0, str = "" and every other index refused (the section's data is not in the prefix:
+                        the ONE all-zero record `generic_get_entry_dyn` fabricates - `DynPrefix.getEntry_nodata` states
+                        the model's behaviour on a data-less section exactly) | the complete file's count and, per
+                        entry, the complete file's answer Spec.dynGet (..) (linkedTable img i) k or - when the linked
+                        string table's data is not in the prefix - Spec.dynGet (..) none k (string-valued tags come
+                        back false with the complete file's tag and value; `DynPrefix.getEntry_str`: a data-less
+                        linked section answers like none).  Non-vacuity computed on prefixes that DO load
+                        (`exDynView`, image `exImg4`): 250 bytes -> count 1, entry 0 = (DT_NULL, 0, ""), entry 1 refused;
+                        266 bytes -> count 3, DT_NEEDED false with tag/value intact; 269 bytes -> the file.
+Partial (what is NOT a theorem, covered by correspondence + oracle only): the PT_NOTE segment accessor on a prefix
+(`C17.prefix_sound_segment` says the segments of a successfully loaded prefix are the complete file's; the composition
+with segment_notes_reports_spec is not written out), modinfo / verneed / verdef / by-name / by-value / resolved
+relocation read-outs on a prefix.
 Correspondence + oracle: every prefix (quick: a stratified sample plus all lengths around table
 and data boundaries; thorough: every length) of encoder-built images and small examples, eager and
 lazy; the oracle compares the prefix's observation with the complete file's observation, field by
@@ -64,8 +87,15 @@ THEOREMS = ["ElfioVerif.C17.read_prefix", "ElfioVerif.C17.isolatedRead_prefix",
             "ElfioVerif.Compose.nameTableNulFirst_of_image",
             "ElfioVerif.Compose.prefix_sound_names",
             "ElfioVerif.ComposeTables.prefixLoaded_of_load", "ElfioVerif.ComposeTables.prefix_secResident",
-            "ElfioVerif.ComposeTables.prefix_strings_sound", "ElfioVerif.ComposeTables.prefix_symbols_sound"]
-EXTRA_IMPORTS = ["ElfioVerif.Props.Compose", "ElfioVerif.Props.ComposeTables"]
+            "ElfioVerif.ComposeTables.prefix_strings_sound", "ElfioVerif.ComposeTables.prefix_symbols_sound",
+            "ElfioVerif.LoadedTables.load_secs_cls", "ElfioVerif.LoadedTables.DynPrefix.getEntry_nodata",
+            "ElfioVerif.LoadedTables.DynPrefix.getEntry_str",
+            "ElfioVerif.ComposeTables.prefixLoadedC_of_load", "ElfioVerif.ComposeTables.prefix_secResident_c",
+            "ElfioVerif.ComposeTables.pready_inv", "ElfioVerif.ComposeTables.dyn_acc_prefix",
+            "ElfioVerif.ComposeTables.prefix_reloc_sound", "ElfioVerif.ComposeTables.prefix_dynamic_sound",
+            "ElfioVerif.ComposeTables.prefix_notes_sound", "ElfioVerif.ComposeTables.prefix_array_sound",
+            "ElfioVerif.ComposeTables.prefix_versym_sound"]
+EXTRA_IMPORTS = ["ElfioVerif.Props.Compose", "ElfioVerif.Props.ComposeTables", "ElfioVerif.Props.ComposeTables2"]
 SITES = ["conv", "load_s", "sec32_load", "sec64_load", "seg32_load", "seg64_load", "seg32_range", "seg64_range"]
 RULE = ("(image, k): object 0 loads the complete well-formed image, object 1 its prefix of length k, both "
         "observed identically; images from tools/elfspec.py in 4 configurations and small bundled examples; "
